@@ -124,8 +124,9 @@ CHECKS = {
     },
     "C12": {
         "level": "exploration", "exhaustive": True,
-        "lanes": [("handover", lane("c12", {"depth": 4, "random": 1500}, {"depth": 6, "random": 5000}))],
-        "rule": "alphabet of 19 symbols ({initial admin, a, b, stranger} x {nominate a, nominate b, revoke, accept} + wait 7d-1s / 1s / 7d); ALL sequences of length 4 (quick) / 6 (thorough) on both contracts by prefix-tree DFS on world clones, plus random sequences of length 6-40; every step's outcome is compared with a reference state machine, the admin identity is read back (treasury Config, admin-only probes, State.pending_owner) at every leaf and after every handover; distinct = (contract, admin, nominee, clock vs deadline) at leaves",
+        "lanes": [("handover", lane("c12", {"depth": 4, "random": 1500, "alphabet": "full"}, {"depth": 5, "random": 5000, "alphabet": "full"})),
+                  ("deep", lane("c12", {"depth": 3, "random": 0, "alphabet": "core"}, {"depth": 6, "random": 0, "alphabet": "core"}))],
+        "rule": "full alphabet of 25 symbols ({initial admin, a, b, stranger} x {nominate a, nominate b, nominate self, revoke, accept} + wait 7d-1s / 1s / 7d + CircuitBreaker / ResumeContract by the current admin as noise on the staking contract); ALL sequences of length 4 (quick) / 5 (thorough) over it and ALL sequences of length 3 (quick) / 6 (thorough) over the 19-symbol core alphabet on both contracts by prefix-tree DFS on world clones, plus random sequences of length 6-40; every step's outcome is compared with a reference state machine, the admin identity is read back (treasury Config, admin-only probes, State.pending_owner) at every leaf and after every handover; distinct = (contract, admin, nominee, clock vs deadline) at leaves",
         "require": ["c12:sequences", "c12:handovers", "c12:accept_at_-1", "c12:accept_at_0", "c12:accept_at_1", "c12:random_sequences"],
         "assumptions": [SIM],
     },
